@@ -328,6 +328,7 @@ func (c *Conn) ExecWALTx(tx WalTx) (res TxResult, err error) {
 
 	newImg, dirty := db.buildImage(db.Img, tx.Tx, ref.ModeWAL)
 	res.Pages = len(dirty)
+	res.Attempt = newImg
 
 	idx := w.MxFrame
 	c1, c2 := w.Ck1, w.Ck2
